@@ -478,7 +478,7 @@ def run(F, rep):
             rep.check(not removers or (bool(clamps) and not late), 'C09.I2', '%s/%d|%s.insert' % (f.short, len(f.params), cont), f.where(n),
                       '%s inserts at begin() + %s after %d call(s) that can remove elements from %s (%s) without re-bounding the index: when the replacement was already a child at a lower index the position is past the end' % (f.short, idx[0]['n'], len(removers), cont, ', '.join(sorted({render(r)[:30] for r in removers}))),
                       'index clamped to size() after the removals')
-    if n_i2 < 2:
+    if n_i2 < 1:
         raise AnalysisBroken('C09.I2: positional insertions into child containers: %d found, 2 confirmed' % n_i2)
 
 
